@@ -38,6 +38,15 @@ PROPS["C11"] = dict(
                  "duplicate tags outside groups are not generated (retrieval would be ambiguous)"],
 )
 
+PROPS["C12"] = dict(
+    pkg="./props/codec", level="exploration", design_ref="DESIGN.md §3 C12",
+    technique="metamorphic testing (any read partition == one generous read) plus a reference framer, on rapid-generated streams and partitions aimed inside tags, lengths and checksums",
+    stages=[dict(name="rapid", kind="rapid", run="^TestC12_Rapid$", checks=(3000, 60000), shards=(12, 16), timeout=(400, 2400))],
+    require=["family:wellformed", "family:soup", "split-inside-tag-length-or-checksum", "message-larger-than-buffer", "two-or-more-messages"],
+    assumptions=["frames are observed through parser.ReadMessage (hook H1 wraps the unexported parser); the sequence ends at the first error, as in connection.go's readLoop",
+                 "junk between messages contains no '8=' marker, per the statement"],
+)
+
 NOT_APPLICABLE = {}
 
 HOOK_COMMITS = ["ce15100"]
